@@ -700,6 +700,14 @@ func c19RunRuntime(o *out, id int, c c19rt, dir string) error {
 			}
 			return birch.NewDocument(birch.EC.Int64("k", generated))
 		}}}
+		// further custom collectors (more of them than CPUs when asked for: the parallel path hands their results over
+		// through a channel)
+		for i := 1; i < c.ncoll; i++ {
+			v := int64(i)
+			opts.Collectors = append(opts.Collectors, metrics.CustomCollector{Name: fmt.Sprintf("x%03d", i), Operation: func(context.Context) *birch.Document {
+				return birch.NewDocument(birch.EC.Int64("v", v))
+			}})
+		}
 	}
 	ctx, cancel := context.WithCancel(context.Background())
 	done := make(chan error, 1)
@@ -808,6 +816,11 @@ func (r *rng) c19Runtimes(tier string) []c19rt {
 			c.collect, c.flush = 3*msd, 3*msd // collection interval equal to the flush interval
 		}
 		cs = append(cs, c)
+	}
+	// more custom collectors than CPUs, run in parallel and one after the other
+	for _, par := range []bool{true, false} {
+		cs = append(cs, c19rt{flush: 30 * msd, collect: 2 * msd, cancel: 20 * msd, samples: 10, skipSys: true, skipP: true,
+			ncoll: runtime.NumCPU() + 3, parallel: par})
 	}
 	// a custom collector whose document changes shape inside a chunk (not at a chunk boundary)
 	for _, at := range []int{3, 7, 14} {
